@@ -298,6 +298,24 @@ func c15Run(c c15Case) []mc.Finding {
 	w.Sim.Edit(pk, pns, "p", func(x map[string]interface{}) { kit.Field(x, "2", "spec", "v") })
 	w.DeliverAll()
 	w.Hooks.Calls = nil
+	// a related object changes before the new generation has been synced: no answer is remembered for it yet,
+	// the handler has to ask - the parent is woken all the same
+	for _, o := range c15Objects {
+		inner := o.name
+		if c.ClusterParent && o.kind.Namespaced {
+			inner = o.ns + "/" + o.name
+		}
+		if !want[hookKey(o.kind)+"|"+inner] || (!c.ClusterParent && o.ns != pns) {
+			continue
+		}
+		w.Q.Clear()
+		w.Sim.Edit(o.kind, o.ns, o.name, func(x map[string]interface{}) { kit.Ann(x, "touched", "2") })
+		w.Deliver(o.kind, o.ns, o.name, false)
+		if !w.Q.Has("Add", key) {
+			bad("related-change-does-not-wake:no-remembered-answer", "%s %s/%s is selected by the parent's rules; it changed while no customize answer was remembered for the parent's new generation and the parent was not queued (queue ops %v)", o.kind.Resource, o.ns, o.name, w.Q.Ops)
+		}
+		break
+	}
 	if check("generation-2", "/dc/sync") {
 		if n := count("/dc/customize"); n != 1 {
 			bad("customize-per-generation", "customize hook called %d times for the new generation, want 1", n)
